@@ -22,7 +22,7 @@ import (
 	"verif/internal/model"
 )
 
-const rule = "cases (a): LeaseSet2 values (model-encoded, parsed; every identity type, 1..16 keys, 1..16 leases, options, offline blocks), recipient X25519 key pairs and cookies derived from seeds; per case every single byte position of the ciphertext (ephemeral key, nonce, body, tag) x {xor 0x01, xor 0x80, xor a drawn non-zero value}, truncation by 1 and extension by 1, and a private key whose public key differs. cases (b): (destination with an Ed25519 or RedDSA key that is a real curve point, secret of 32..64 bytes, instant) with instants drawn around UTC midnights +-1 s / +-1 ns between 1970 and 2200 and expressed in locations UTC-14h..+14h. Oracles: decrypt(encrypt(x)).Bytes() = x.Bytes(); any modified byte, changed length or different key => error and nil value; CreateBlindedDestination equal for two instants iff same UTC calendar day (own civil-date computation), independent of location; output keeps encryption key, padding and certificate and differs in the signing key; VerifyBlindedSignature true with the factor derived for that secret and day, false for another day, another secret, and other factors (derived + k*L for every k that fits 32 bytes, single-bit differences at 39 positions per case, zero, L). Non-trivial: every case (each carries hundreds of modified ciphertexts); distinct by (plaintext, keys) / (destination, secret, instant)."
+const rule = "cases (a): LeaseSet2 values (model-encoded, parsed; every identity type, 1..16 keys, 1..16 leases, options, offline blocks), recipient X25519 key pairs and cookies derived from seeds; per case every single byte position of the ciphertext (ephemeral key, nonce, body, tag) x {xor 0x01, xor 0x80, xor a drawn non-zero value}, truncation by 1 and extension by 1, and a private key whose public key differs. cases (b): (destination with an Ed25519 or RedDSA key that is a real curve point, secret of 32..64 bytes, instant) with instants drawn around UTC midnights +-1 s / +-1 ns between 1970 and 2200 and expressed in locations UTC-14h..+14h. Oracles: decrypt(encrypt(x)).Bytes() = x.Bytes(), again on a second call with the same key object, the caller's key and cookie unchanged; any modified byte, changed length or different key => error and nil value; CreateBlindedDestination equal for two instants iff same UTC calendar day (own civil-date computation), independent of location; output keeps encryption key, padding and certificate and differs in the signing key; VerifyBlindedSignature true with the factor derived for that secret and day, false for another day, another secret, and other factors (derived + k*L for every k that fits 32 bytes, single-bit differences at 39 positions per case, zero, L). Non-trivial: every case (each carries hundreds of modified ciphertexts); distinct by (plaintext, keys) / (destination, secret, instant)."
 
 func TestMain(m *testing.M) { ev.Main(m, "C16", rule) }
 
@@ -98,6 +98,8 @@ func checkEnc(c EncCase, r *ev.Rec) error {
 	case 2:
 		privArg = []byte(priv)
 	}
+	privCopy := append([]byte{}, priv...)
+	cookieCopy := cookie
 	back, err := els.DecryptInnerData(cookie[:], privArg)
 	if err != nil || back == nil {
 		return fmt.Errorf("DecryptInnerData(EncryptInnerLeaseSet2(x)) failed: %v", err)
@@ -105,6 +107,26 @@ func checkEnc(c EncCase, r *ev.Rec) error {
 	bb, err := back.Bytes()
 	if err != nil || !bytes.Equal(bb, plain) {
 		return fmt.Errorf("decrypt(encrypt(x)) differs from x (%d vs %d bytes, err %v)", len(bb), len(plain), err)
+	}
+	// the caller's key and cookie are inputs: decrypting does not change them, and the
+	// same key decrypts the same value again (and another value carrying the same ciphertext)
+	if !bytes.Equal(priv, privCopy) || cookie != cookieCopy {
+		return fmt.Errorf("DecryptInnerData changed the caller's private key or cookie (key form %d)", c.Rep%3)
+	}
+	for again := 0; again < 2; again++ {
+		target := els
+		if again == 1 {
+			if target, err = elsWith(ct, c.KeySeed); err != nil {
+				return err
+			}
+		}
+		b2, err := target.DecryptInnerData(cookie[:], privArg)
+		if err != nil || b2 == nil {
+			return fmt.Errorf("a second DecryptInnerData with the same key (form %d) failed: %v", c.Rep%3, err)
+		}
+		if bb2, err := b2.Bytes(); err != nil || !bytes.Equal(bb2, plain) {
+			return fmt.Errorf("a second decryption with the same key returns other bytes (err %v)", err)
+		}
 	}
 	// a private key with a different public key
 	priv2, pub2 := recipient(c.KeySeed + 1)
